@@ -39,7 +39,7 @@ COMPONENTS = {
     "stub_or_harness": ["history generator", "spec/value generators", "reference spec parser (which members are public)"],
 }
 FAULT_KINDS = ["sibling_instance_created", "setattr_attempt", "delattr_attempt", "source_list_mutation", "returned_value_mutation_attempt"]
-PROBES = ["live_sequence_view_argument", "packet_write_method", "serialize_into_sanitising_writer", "array_element_mutation_attempt", "array_of_structs", "optional_array_present", "blob_on_deserialized_instance", "case_data_mutated_through_parent",
+PROBES = ["serialize_into_nonempty_writer", "unserializable_instance_observed", "invalid_instance", "live_sequence_view_argument", "packet_write_method", "serialize_into_sanitising_writer", "array_element_mutation_attempt", "array_of_structs", "optional_array_present", "blob_on_deserialized_instance", "case_data_mutated_through_parent",
           "one_shot_iterator_argument", "nested_instance_setattr", "byte_size_setattr", "first_serialize_failed_skipped",
           "tree_rejected", "returned_value_was_mutable"]
 
@@ -105,14 +105,16 @@ class Instance:
         kwargs = {k: self._build(v, mask) for k, v in value["f"].items()}
         return te.bridge.cls(value["cls"])(**kwargs)
 
-    def serialize(self, sanitize=False, via_write=False):
+    def serialize(self, sanitize=False, via_write=False, prefix=0):
         w = self.te.EoWriter()
+        if prefix:
+            w.add_bytes(bytes([1, 2, 3, 4, 5, 6, 7][:prefix]))     # a writer that already holds something (e.g. a header)
         w.string_sanitization_mode = bool(sanitize)
         if via_write and hasattr(self.obj, "write"):
             self.obj.write(w)
         else:
             self.te.bridge.cls(self.cls_name).serialize(w, self.obj)
-        return bytes(w.to_bytearray())
+        return bytes(w.to_bytearray())[prefix:]
 
     def snapshot(self):
         """Everything the public getters show, at every depth (must never change)."""
@@ -172,7 +174,7 @@ def gen_ops(inst, rng, n):
     is_packet = spec.classes[inst.cls_name].kind == "packet"
 
     def observe():
-        return ["serialize", rng.random() < 0.3, is_packet and rng.random() < 0.5]
+        return ["serialize", rng.random() < 0.3, is_packet and rng.random() < 0.5, rng.choice([0, 0, 0, 1, 4])]
 
     ops = [observe()]
     targets = inst.targets()
@@ -269,8 +271,11 @@ def run_history(inst, ops, res, tr, case, shape):
         if name == "serialize":
             sanitize = bool(op[1]) if len(op) > 1 else False
             via_write = bool(op[2]) if len(op) > 2 else False
+            prefix = int(op[3]) if len(op) > 3 else 0
+            if prefix:
+                res.count("probe.serialize_into_nonempty_writer")
             try:
-                out = inst.serialize(sanitize, via_write)
+                out = inst.serialize(sanitize, via_write, prefix)
             except Exception as e:  # noqa
                 out = ("raised", type(e).__name__)
             tr.ev(step, name, sanitize, via_write, out.hex() if isinstance(out, bytes) else out)
@@ -281,9 +286,8 @@ def run_history(inst, ops, res, tr, case, shape):
             first = firsts.get(sanitize)
             if first is None:
                 firsts[sanitize] = out
-                if not isinstance(out, bytes) and not firsts.get(False):
-                    res.count("probe.first_serialize_failed_skipped")
-                    return None
+                if not isinstance(out, bytes):
+                    res.count("probe.unserializable_instance_observed")     # must then fail the same way every time
             elif out != first:
                 prev = [o for o in ops[:step]][-3:]
                 return viol("serialization-changed", inst.origin,
@@ -419,6 +423,13 @@ def execute(plan, env):
                     val = vg.gen_class(cd)
                     origin = rng.choice(["ctor", "deserialize"])
                     iter_mask = rng.getrandbits(16) if rng.random() < 0.5 else 0
+                    if origin == "ctor" and rng.random() < 0.15:
+                        from .c15_modes import corrupt_value
+                        import copy
+                        bad = copy.deepcopy(val)
+                        if corrupt_value(bad, rng, te.spec):
+                            val = bad
+                            res.count("probe.invalid_instance")
                     if origin == "ctor":
                         inst = Instance(te, cd.name, "ctor", val, None, iter_mask)
                         case = {"cls": cd.name, "origin": "ctor", "value": val, "iter_mask": iter_mask}
